@@ -27,16 +27,18 @@ import (
 // Params is the (JSON-serialisable) description of a genesis configuration.
 // Everything a history needs to be replayed is derivable from it.
 type Params struct {
-	Seed         string  `json:"seed"`
-	ChainID      string  `json:"chain_id"`
-	ValPower     []int64 `json:"val_power"`  // whole OLT stake per genesis validator
-	ExtraVals    int     `json:"extra_vals"` // key material for candidates that are not genesis validators
-	NumUsers     int     `json:"num_users"`
-	NumEth       int     `json:"num_eth"`
-	UserOLT      string  `json:"user_olt"`     // whole OLT per user / stake account
-	Frankenstein int64   `json:"frankenstein"` // 0 disabled
-	MaxGas       int64   `json:"max_gas"`
-	Witnesses    []int   `json:"witnesses"` // validator indexes that are ethereum witnesses
+	Seed      string  `json:"seed"`
+	ChainID   string  `json:"chain_id"`
+	ValPower  []int64 `json:"val_power"`  // whole OLT stake per genesis validator
+	ExtraVals int     `json:"extra_vals"` // key material for candidates that are not genesis validators
+	NumUsers  int     `json:"num_users"`
+	NumEth    int     `json:"num_eth"`
+	UserOLT   string  `json:"user_olt"` // whole OLT per user / stake account
+	// NoDelegOptions: the genesis carries no network-delegation options section
+	NoDelegOptions bool  `json:"no_deleg_options,omitempty"`
+	Frankenstein   int64 `json:"frankenstein"` // 0 disabled
+	MaxGas         int64 `json:"max_gas"`
+	Witnesses      []int `json:"witnesses"` // validator indexes that are ethereum witnesses
 
 	MinSelfDeleg int64 `json:"min_self_deleg"`
 	TopCount     int64 `json:"top_count"`
@@ -295,6 +297,12 @@ func BuildGenesis(p Params) *Genesis {
 		})
 	}
 
+	// genesis files from before network delegation existed, and the node's own save_state dump, carry no
+	// delegation options section: the application uses its built-in maturity then
+	delegOpt := network_delegation.Options{RewardsMaturityTime: network_delegation.RewardsMaturityTime}
+	if p.NoDelegOptions {
+		delegOpt = network_delegation.Options{}
+	}
 	state := consensus.AppState{
 		Delegation: delegState,
 		Currencies: currencies,
@@ -344,7 +352,7 @@ func BuildGenesis(p Params) *Genesis {
 				TopValidatorCount:       p.TopCount,
 				MaturityTime:            p.Maturity,
 			},
-			DelegOptions:    network_delegation.Options{RewardsMaturityTime: network_delegation.RewardsMaturityTime},
+			DelegOptions:    delegOpt,
 			EvidenceOptions: p.Evidence,
 			RewardOptions: rewards.Options{
 				RewardInterval:           p.RewardInterval,
